@@ -13,9 +13,18 @@ use anyhow::Result;
 use crossbeam::channel::{Receiver, Sender};
 use log::{error, warn};
 use std::collections::HashMap;
+#[cfg(not(similari_verif))]
 use std::sync::{Arc, Mutex, MutexGuard};
+#[cfg(similari_verif)]
+use similari_verif_rt::sync::{Arc, Mutex, MutexGuard};
+#[cfg(not(similari_verif))]
 use std::thread::JoinHandle;
+#[cfg(similari_verif)]
+use similari_verif_rt::thread::JoinHandle;
+#[cfg(not(similari_verif))]
 use std::{mem, thread};
+#[cfg(similari_verif)]
+use {similari_verif_rt::thread, std::mem};
 use track_distance::{TrackDistanceErr, TrackDistanceOk};
 
 #[derive(Clone)]
